@@ -20,7 +20,7 @@ INT_TYPES = {"int", "int8", "int16", "int32", "int64"}
 UINT_TYPES = {"uint", "uint8", "uint16", "uint32", "uint64"}
 
 BODY_STATE = {"valid": "good", "unicode": "good", "missing": "empty", "malformed": "bad", "illtyped": "bad",
-              "norequired": "bad", "null": "bad"}
+              "norequired": "bad", "null": "bad", "trailing": "bad", "twodocs": "bad", "whitespace": "bad"}
 
 
 def canon_json(v):
@@ -66,7 +66,7 @@ def coq_arg(prm, a):
 
 def coq_observation(method, raw):
     if raw.get("panic") is not None:
-        return "(mkObs 0%N [] [])"
+        return "(mkObs 0%N [] [] None)"
     auth = []
     for x in raw["auth"]:
         v = x["verdict"]
@@ -80,7 +80,13 @@ def coq_observation(method, raw):
         else:
             args = ["(AVal (Some (VStr %s)))" % coq_bytes("<foreign:%s>" % canon_json(a)) for a in c["args"]]
         calls.append("(%s, %s, %s)" % (coq_bytes(c["controller"]), coq_bytes(c["method"]), coq_list(args)))
-    return "(mkObs %d%%N %s %s)" % (raw["status"], coq_list(auth), coq_list(calls))
+    rejected = "None"
+    if raw["status"] == 422 and raw.get("body_is_json") and isinstance(raw.get("body_json"), dict):
+        import re
+        mo = re.search(r"parameter '([^']*)'", str(raw["body_json"].get("detail", "")))
+        if mo:
+            rejected = "(Some %s)" % coq_bytes(mo.group(1))
+    return "(mkObs %d%%N %s %s %s)" % (raw["status"], coq_list(auth), coq_list(calls), rejected)
 
 
 def coq_table(script):
@@ -135,7 +141,7 @@ def coq_request(method, case):
     st = "BEmpty"
     if any((not p["ctx"]) and p["loc"] == "body" for p in method["params"]):
         label = case["label"]
-        kind = label[5:] if label.startswith("body-") else "valid"
+        kind = label[5:] if label.startswith("body-") else ("malformed" if label.startswith("double-fault:") else "valid")
         cls = BODY_STATE.get(kind, "unknown")
         if rq.get("body") is None:
             st = "BEmpty"
